@@ -3,8 +3,14 @@
 proof:   coq/Props/C17.v (model of Op::eval_value_* / Value vs the L1 reference BV/Ops1800.v)
 tie:     correspondence veryl_analyzer::ir::Op::eval_value_{unary,binary} vs VV.Value.ValueModel
 oracle:  BV/Ops1800.v via Value/SpecGlue.v evaluated on the same cases (impl result vs IEEE 1800)
+
+Three-way diff per case: implementation (vh-value harness, debug profile = overflow checks on; release
+profile too in the thorough tier) vs model (fidelity of the transcription) vs IEEE reference (the
+property's oracle).  The model and the reference are extracted to OCaml (ExtrOcamlBasic only) for
+speed; a sample of every run is re-evaluated inside Coq with vm_compute as a guard on the extraction.
 """
 import json
+import os
 import random
 from collections import Counter
 
@@ -13,28 +19,144 @@ from ..gen import bits as G
 
 PID = "C17"
 
-PRE = """From VV Require Import Value.SpecGlue.
+MANIFEST = {
+    "category": "proof",
+    "technique": "Coq proof (bit-level / modular arithmetic, all widths) + three-way correspondence impl / model / IEEE reference",
+    "text": "Theorems over the Gallina transcription of Op::eval_value_unary/binary and Value::expand (both representations, "
+            "u64 wrap-around and checked shifts explicit): for every operand value, width and signedness the result equals the "
+            "IEEE 1800-2017 clause 11.4 reference (BV/Ops1800.v) for unary + - ~ ! and the six reductions and for binary "
+            "+ - * / % ** & | ^ ~^ << <<< >> >>> < <= > >= == != ==? !=? && || (== != && outside two refuted deviation classes); the "
+            "U64 and BigUint paths agree on the same numbers; no panic on admissible operands. ** is proved outside two further "
+            "refuted classes (x/z-signed exponent, exponent >= 2^64) with the context signedness of its left operand. The model is tied to veryl_analyzer by exact comparison "
+            "(representation, payload, mask, width, signed, panic) on exhaustive small-width and boundary-biased random cases, "
+            "and the reference is evaluated directly against the implementation's results.",
+    "note": "Trusted: Coq kernel; our reading of IEEE 1800 clause 11.4 in coq/BV/Ops1800.v and of the analyzer's calling "
+            "convention in coq/Value/SpecGlue.v; hand-written model coq/Value/ValueModel.v (num-bigint assumed exact); OCaml "
+            "extraction (ExtrOcamlBasic) + driver, cross-checked against vm_compute on a sample each run; vh-value harness; "
+            "python generator. No axioms. Preconditions: operand widths <= context width for context-determined operators, "
+            "width >= 1, widths < 2^32. Float operators, literal parsing, As/Ternary/Concatenation are outside. Known "
+            "deviations of the unchanged code are keyed in KNOWN_FINDINGS.txt (== / != with x/z facing 1, 0 && x, ** with "
+            "x/z-signed or >= 2^64 exponent).",
+}
+
+COQ_CASE = """From VV Require Import Value.SpecGlue Value.ValueProofsCmp Value.ValueProofsPow Value.ValueTheorems.
 Open Scope N_scope.
 Inductive case := CU (o : op) (x : value) (w : N) (s : bool) | CB (o : op) (x y : value) (w : N) (s : bool).
 Definition obs5 (v : value) := (match rp v with RU => 0 | RB => 1 end, pl v, mk v, wd v, if sg v then 1 else 0).
 Definition sp (v : vec) := (vp v, vm v).
+(* identity of the known deviation classes (KNOWN_FINDINGS.txt) *)
+Definition cls (c : case) : N :=
+  match c with
+  | CB Eq x y _ _ => if eq_known_dev x y then 1 else 0
+  | CB Ne x y _ _ => if eq_known_dev x y then 2 else 0
+  | CB LogicAnd x y _ _ => if land_known_dev x y then 3 else 0
+  | CB Pow x y _ _ => if pow_xz_sign_dev y then 4 else if pow_big_exp_dev y then 5 else 0
+  | _ => 0
+  end.
 Definition run (c : case) :=
   match c with
-  | CU o x w s => (option_map obs5 (eval_unary o x w s), option_map sp (spec_unary o x w s))
-  | CB o x y w s => (option_map obs5 (eval_binary o x y w s), option_map sp (spec_binary_exec o x y w s))
+  | CU o x w s => (option_map obs5 (eval_unary o x w s), option_map sp (spec_unary o x w s), cls c)
+  | CB o x y w s => (option_map obs5 (eval_binary o x y w s), option_map sp (spec_binary_exec o x y w s), cls c)
   end.
 """
 
+CLASS_KEYS = {1: "Eq:xz-vs-one", 2: "Ne:xz-vs-one", 3: "LogicAnd:false-and-xz",
+              4: "Pow:xz-exponent-sign", 5: "Pow:exponent-ge-2^64"}
 
-def model_eval(cases, name="c17"):
+EXTRACT_V = COQ_CASE + """
+Require Extraction. Require Import ExtrOcamlBasic.
+Definition n_push (n : N) (b : bool) : N := if b then N.succ_double n else N.double n.
+Fixpoint pos_bits (p : positive) : list bool :=
+  match p with xH => [true] | xO q => false :: pos_bits q | xI q => true :: pos_bits q end.
+Definition n_bits (n : N) : list bool := match n with N0 => [] | Npos p => pos_bits p end.
+Definition mk_value (r : bool) (p m w : N) (s : bool) : value := mkV (if r then RB else RU) p m w s.
+Definition op_list : list op :=
+  [Add; Sub; Mul; Div; Rem; Pow; BitAnd; BitOr; BitXor; BitXnor; BitNand; BitNor; BitNot; Eq; Ne;
+   EqWildcard; NeWildcard; Greater; GreaterEq; Less; LessEq; LogicAnd; LogicOr; LogicNot;
+   LogicShiftL; LogicShiftR; ArithShiftL; ArithShiftR; As].
+Extraction "c17_model.ml" run n_push n_bits mk_value CU CB op_list.
+"""
+
+DRIVER_ML = r"""
+open C17_model
+let n_of_hex (s : string) : n =
+  let r = ref N0 in
+  String.iter (fun c ->
+    let d = if c >= '0' && c <= '9' then Char.code c - 48 else Char.code c - 87 in
+    for k = 3 downto 0 do r := n_push !r ((d lsr k) land 1 = 1) done) s;
+  !r
+let hex_of_n (x : n) : string =
+  let bits = Array.of_list (n_bits x) in
+  let len = Array.length bits in
+  if len = 0 then "0" else begin
+    let nd = (len + 3) / 4 in
+    let b = Bytes.create nd in
+    for d = 0 to nd - 1 do
+      let v = ref 0 in
+      for k = 0 to 3 do let i = d * 4 + k in if i < len && bits.(i) then v := !v lor (1 lsl k) done;
+      Bytes.set b (nd - 1 - d) "0123456789abcdef".[!v]
+    done;
+    Bytes.to_string b end
+let op_names = [| "Add"; "Sub"; "Mul"; "Div"; "Rem"; "Pow"; "BitAnd"; "BitOr"; "BitXor"; "BitXnor"; "BitNand";
+  "BitNor"; "BitNot"; "Eq"; "Ne"; "EqWildcard"; "NeWildcard"; "Greater"; "GreaterEq"; "Less"; "LessEq"; "LogicAnd";
+  "LogicOr"; "LogicNot"; "LogicShiftL"; "LogicShiftR"; "ArithShiftL"; "ArithShiftR"; "As" |]
+let op_of (s : string) =
+  let r = ref (-1) in
+  Array.iteri (fun i nm -> if nm = s then r := i) op_names;
+  if !r < 0 then failwith ("op " ^ s) else List.nth op_list !r
+let value t i =
+  mk_value (t.(i) = "B") (n_of_hex t.(i + 1)) (n_of_hex t.(i + 2)) (n_of_hex t.(i + 3)) (t.(i + 4) = "1")
+let () =
+  try
+    while true do
+      let line = input_line stdin in
+      let t = Array.of_list (String.split_on_char ' ' (String.trim line)) in
+      let c =
+        if t.(0) = "U" then CU (op_of t.(1), value t 4, n_of_hex t.(2), t.(3) = "1")
+        else CB (op_of t.(1), value t 4, value t 9, n_of_hex t.(2), t.(3) = "1") in
+      let ((mo, spc), k) = run c in
+      let ms = match mo with
+        | None -> "N"
+        | Some ((((r, p), m), w), s) ->
+            Printf.sprintf "%s %s %s %s %s" (hex_of_n r) (hex_of_n p) (hex_of_n m) (hex_of_n w) (hex_of_n s) in
+      let ss = match spc with None -> "N" | Some (p, m) -> Printf.sprintf "%s %s" (hex_of_n p) (hex_of_n m) in
+      print_string (ms ^ " ; " ^ ss ^ " ; " ^ hex_of_n k ^ "\n")
+    done
+  with End_of_file -> ()
+"""
+
+
+def hex_wire(c):
+    def v(x):
+        return "%s %x %x %x %d" % (x[0], x[1], x[2], x[3], x[4])
+    if c[0] == "U":
+        return "U %s %x %d %s" % (c[1], c[2], c[3], v(c[4]))
+    return "B %s %x %d %s %s" % (c[1], c[2], c[3], v(c[4]), v(c[5]))
+
+
+def model_eval_ocaml(binary, cases):
+    outs = C.run_lines(binary, [hex_wire(c) for c in cases], timeout=1800)
+    res = []
+    for ln in outs:
+        parts = [p.strip() for p in ln.split(";")]
+        if len(parts) != 3:
+            raise RuntimeError("model driver output: %r" % ln)
+        mo = None if parts[0] == "N" else tuple(int(t, 16) for t in parts[0].split())
+        spc = None if parts[1] == "N" else tuple(int(t, 16) for t in parts[1].split())
+        res.append((mo, spc, int(parts[2], 16)))
+    return res
+
+
+def model_eval_coq(cases, name="c17"):
+    """the same evaluation inside Coq (vm_compute): replay, and the guard on the extracted code"""
     terms = [G.case_coq(c) for c in cases]
-    vals = C.coq_eval_sharded(name, PRE, terms, lambda l: "map run %s" % l, shard=2500)
+    vals = C.coq_eval_sharded(name, COQ_CASE, terms, lambda l: "map run %s" % l, shard=400, timeout=1500)
     out = []
     for v in vals:
-        mo, spc = v
+        mo, spc, k = v
         mo = None if mo == "None" else tuple(mo[1])
         spc = None if spc == "None" else tuple(spc[1])
-        out.append((mo, spc))
+        out.append((mo, spc, k))
     return out
 
 
@@ -50,83 +172,161 @@ def impl_eval(binary, cases):
     return res
 
 
-def classify(c, im, spc):
-    """identity of a deviation from the IEEE reference: operator + which clause of the semantics"""
-    op = c[1]
+def classify(c, im, k):
+    """identity of a deviation from the IEEE reference: a known class (decided in Coq by the
+    predicates the theorems use) or operator + panic / 2-state / 4-state"""
+    if im is None:
+        return "%s:%s:panic" % (c[0], c[1])
+    if k in CLASS_KEYS:
+        return CLASS_KEYS[k]
     x = c[4]
     y = c[5] if c[0] == "B" else None
     xz = (x[2] != 0) or (y is not None and y[2] != 0)
-    if im is None:
-        return "%s:%s:panic" % (c[0], op)
-    kind = "4state" if xz else "2state"
-    return "%s:%s:%s" % (c[0], op, kind)
+    return "%s:%s:%s" % (c[0], c[1], "4state" if xz else "2state")
+
+
+def case_size(c):
+    return (c[4][3] + (c[5][3] if c[0] == "B" else 0), c[2], c[4][1] + (c[5][1] if c[0] == "B" else 0))
+
+
+def corpus_cases():
+    d = os.path.join(C.VERIF, "corpus", PID)
+    out = []
+    if os.path.isdir(d):
+        for f in sorted(os.listdir(d)):
+            if f.endswith(".txt"):
+                for ln in open(os.path.join(d, f)):
+                    ln = ln.split("#")[0].strip()
+                    if ln:
+                        out.append(G.parse_wire(ln))
+    return out
 
 
 def run(tier, seed, replay):
     res = C.Result(PID, "proof", tier, seed)
     res.coverage["trusted_base"] = C.std_trusted_base([
-        "reference: coq/BV/Ops1800.v is our reading of IEEE 1800-2017 clause 11.4 (per-bit tables, integer definitions)",
+        "reference: coq/BV/Ops1800.v is our reading of IEEE 1800-2017 clause 11.4 (per-bit tables, integer definitions); "
+        "coq/Value/SpecGlue.v our reading of how the analyzer's (operands, context width, signed) maps onto it",
         "model: coq/Value/ValueModel.v transcribes value.rs / op.rs eval_value_*; u64 as N mod 2^64 with checked shifts; BigUint as N (num-bigint assumed exact)",
-        "vh-value harness (harness/value) calls Op::eval_value_unary/binary through the public API"])
-    res.assumptions = ["operands well-formed (payload, mask < 2^width; U64 iff width <= 64); context width >= operand widths for context-determined operators, as the analyzer passes them",
-                       "float operators, literal parsing and ArrayLiteral/Condition are outside the model"]
+        "OCaml extraction of model + reference (ExtrOcamlBasic only) and its driver; a sample of each run is re-evaluated by vm_compute inside Coq",
+        "vh-value harness (harness/value) calls Op::eval_value_unary/binary through the public API (debug profile: overflow checks on)"])
+    res.assumptions = ["operands well-formed (payload, mask < 2^width; U64 iff width <= 64, or the same numbers held as BigUint at the context width); "
+                       "context width >= operand widths for context-determined operators, >= 1 and < 2^32, as the analyzer passes them",
+                       "** (Pow): context signedness = signedness of the left operand; outside the classes pow_xz_sign_dev / pow_big_exp_dev",
+                       "float operators, literal parsing, As / Ternary / Concatenation / ArrayLiteral / Condition are outside the model"]
     proved = C.prove(res, PID)
     ok, binary, log = C.harness_build("vh-value")
-    res.obligation("harness build vh-value from /repo working tree", ok, log[-400:])
+    res.obligation("harness build vh-value (debug) from /repo working tree", ok, log[-400:])
     if not ok:
         res.violation("harness-build", "the value harness no longer builds against /repo: " + log[-300:], {"log": log[-2000:]}, no_input=True)
         return res.finish()
 
     if replay:
         rp = json.load(open(replay))
+        if "case" not in rp:
+            print("replay: no concrete input recorded (%s)" % rp.get("what", ""))
+            if not proved:
+                res.violation(rp.get("key", "proof"), "no longer established", {"no_longer_checks": rp.get("no_longer_checks", "")}, no_input=True)
+            return res.finish()
         c = tuple(tuple(x) if isinstance(x, list) else x for x in rp["case"])
         im = impl_eval(binary, [c])[0]
-        mo, spc = model_eval([c], "c17_replay")[0]
-        print("replay: impl=%s model=%s ieee1800=%s" % (im, mo, spc))
+        mo, spc, k = model_eval_coq([c], "c17_replay")[0]
+        print("replay: %s\n  impl=%s\n  model=%s\n  ieee1800=%s" % (G.case_wire(c), im, mo, spc))
+        res.coverage["evaluations"] = 1
         if spc is not None and (im is None or (im[1], im[2]) != spc):
-            res.violation(classify(c, im, spc), "implementation differs from IEEE 1800 reference", {"case": rp["case"]})
+            res.violation(classify(c, im, k), "implementation %s, IEEE 1800 gives (payload, mask) = %s on %s" % (im, spc, G.case_wire(c)),
+                          {"case": rp["case"], "case_wire": G.case_wire(c), "impl": im, "ieee1800": spc})
+        elif im != mo:
+            res.violation("correspondence", "implementation and model differ on %s" % G.case_wire(c),
+                          {"no_longer_checks": "correspondence", "case": rp["case"], "impl": im, "model": mo}, no_input=True)
         return res.finish()
 
+    okm, mbin, mlog = C.ocaml_build("c17", EXTRACT_V, DRIVER_ML)
+    res.obligation("extraction of model + reference to OCaml", okm, mlog[-400:])
+
     rng = random.Random(seed * 1000003 + 17)
-    cases = G.exhaustive(2 if tier == "quick" else 3)
-    cases += G.random_cases(rng, 30000 if tier == "quick" else 600000)
+    corpus = corpus_cases()
+    cases = list(corpus)
+    cases += G.exhaustive(2 if tier == "quick" else 3)
+    cases += G.both_reps(rng, 4000 if tier == "quick" else 40000)
+    cases += G.random_cases(rng, 40000 if tier == "quick" else 400000)
     impl = impl_eval(binary, cases)
-    model = model_eval(cases)
+    if okm:
+        model = model_eval_ocaml(mbin, cases)
+        # guard on the extracted code: the same function evaluated by the Coq kernel's VM on a sample
+        idx = sorted(set(list(range(len(corpus))) + rng.sample(range(len(cases)), 600 if tier == "quick" else 3000)))
+        guard = model_eval_coq([cases[i] for i in idx], "c17_guard")
+        bad = [i for i, g in zip(idx, guard) if g != model[i]]
+        res.obligation("extracted OCaml model = vm_compute inside Coq on %d sampled cases" % len(idx), not bad,
+                       "" if not bad else "first: %s ocaml=%s coq=%s" % (G.case_wire(cases[bad[0]]), model[bad[0]], guard[idx.index(bad[0])]))
+        if bad:
+            raise RuntimeError("extracted model disagrees with Coq on %s" % G.case_wire(cases[bad[0]]))
+    else:
+        model = model_eval_coq(cases)
     res.coverage["evaluations"] = len(cases)
+
+    if tier != "quick":
+        okr, rbin, rlog = C.harness_build("vh-value", release=True)
+        res.obligation("harness build vh-value (release) from /repo working tree", okr, rlog[-400:])
+        if okr:
+            sub = list(range(0, len(cases), 3))
+            rel = impl_eval(rbin, [cases[i] for i in sub])
+            diff = [i for i, r in zip(sub, rel) if r != impl[i]]
+            res.obligation("release profile = debug profile on %d cases" % len(sub), not diff,
+                           "" if not diff else G.case_wire(cases[diff[0]]))
+            for i in diff[:1]:
+                res.violation("profile:%s:%s" % (cases[i][0], cases[i][1]),
+                              "debug and release builds disagree on %s" % G.case_wire(cases[i]),
+                              {"case": list(cases[i][:6]), "case_wire": G.case_wire(cases[i]), "debug": impl[i]})
+
     mism = []
     dev = {}
     ops = Counter()
     distinct = set()
-    for i, (c, im, (mo, spc)) in enumerate(zip(cases, impl, model)):
+    for i, (c, im, (mo, spc, k)) in enumerate(zip(cases, impl, model)):
         ops[c[1]] += 1
         w = c[4][3]
         res.hist("width_class", "<=4" if w <= 4 else "<=64" if w <= 64 else "<=128" if w <= 128 else ">128")
+        res.hist("operand_state", "4state" if (c[4][2] or (c[0] == "B" and c[5][2])) else "2state")
+        if c[0] == "B":
+            res.hist("operand_reps", c[4][0] + c[5][0])
         if c[4][1] not in (0, 1) or c[4][2] != 0:
             distinct.add(G.case_wire(c))
         if im != mo:
             mism.append(i)
         if spc is not None and (im is None or (im[1], im[2]) != spc):
-            dev.setdefault(classify(c, im, spc), []).append(i)
+            dev.setdefault(classify(c, im, k), []).append(i)
         if i % (len(cases) // 5 + 1) == 0:
             res.sample({"case": G.case_wire(c), "impl": im, "ieee1800": spc})
     res.coverage["distinct_nontrivial"] = len(distinct)
-    res.coverage["rule"] = ("exhaustive: all ops x operand widths 1..%d x all 4-state values x signedness x context widths; plus random cases with widths 1..256 "
-                            "biased to 63/64/65/127/128/129, corner values (0, 1, -1, MIN, MAX), X/Z operands, shift amounts around the width and 2^32, 2^64-1; "
-                            "non-trivial = first operand not a bare 0/1 constant; distinct by serialised case" % (2 if tier == "quick" else 3))
+    res.coverage["rule"] = ("corpus; exhaustive: all ops x operand widths 1..%d x all 4-state values x signedness x context widths {max, max+1}; "
+                            "both-representation pairs (the same numbers as U64 and as BigUint, width <= 64); random cases with widths 1..256 "
+                            "biased to 63/64/65/127/128/129, corner values (0, 1, -1, MIN, MAX), X/Z operands, unsized all-bit literals, "
+                            "shift amounts / exponents around the width, 64, 2^32, 2^64-1, 2^64; non-trivial = first operand not a bare 0/1 "
+                            "constant; distinct by serialised case" % (2 if tier == "quick" else 3))
     res.coverage["ops_histogram"] = dict(ops)
     res.coverage["correspondence_mismatches"] = len(mism)
     res.coverage["ieee_deviation_classes"] = {k: len(v) for k, v in dev.items()}
     res.obligation("correspondence impl = model on %d cases (rep, payload, mask_xz, width, signed; panic <-> None)" % len(cases), not mism)
+    # representation agreement measured on the implementation itself
+    pairs = [i for i, c in enumerate(cases) if len(c) > 6 and c[6] == "pairB"]
+    bad_pairs = [i for i in pairs if impl[i] is None or impl[i - 1] is None or impl[i][1:4] != impl[i - 1][1:4]]
+    res.obligation("implementation: BigUint path = U64 path on %d same-number pairs" % len(pairs), not bad_pairs)
+    for i in bad_pairs[:1]:
+        res.violation("repr:%s:%s" % (cases[i][0], cases[i][1]),
+                      "U64 and BigUint representations disagree: %s -> %s but %s -> %s" % (
+                          G.case_wire(cases[i - 1]), impl[i - 1], G.case_wire(cases[i]), impl[i]),
+                      {"case": list(cases[i][:6]), "case_wire": G.case_wire(cases[i]), "u64_case": G.case_wire(cases[i - 1]),
+                       "impl_big": impl[i], "impl_u64": impl[i - 1]})
     for key, idxs in sorted(dev.items()):
-        # smallest witness: fewest total operand bits
-        i = min(idxs, key=lambda j: (cases[j][4][3] + (cases[j][5][3] if cases[j][0] == "B" else 0), cases[j][2]))
+        i = min(idxs, key=lambda j: case_size(cases[j]))     # smallest witness
         c = cases[i]
         res.violation(key, "%s: implementation %s, IEEE 1800 gives (payload, mask) = %s on %s" % (key, impl[i], model[i][1], G.case_wire(c)),
-                      {"case": list(c), "case_wire": G.case_wire(c), "impl": impl[i], "ieee1800": model[i][1], "count": len(idxs)})
+                      {"case": list(c[:6]), "case_wire": G.case_wire(c), "impl": impl[i], "ieee1800": model[i][1], "count": len(idxs)})
     if mism and not res.violations:
-        i = mism[0]
+        i = min(mism, key=lambda j: case_size(cases[j]))
         res.violation("correspondence", "implementation and model differ; no deviation from the IEEE reference found on the explored cases",
-                      {"no_longer_checks": "correspondence Op::eval_value_* = VV.Value.ValueModel.eval_*", "case": list(cases[i]),
+                      {"no_longer_checks": "correspondence Op::eval_value_* = VV.Value.ValueModel.eval_*", "case": list(cases[i][:6]),
                        "case_wire": G.case_wire(cases[i]), "impl": impl[i], "model": model[i][0], "mismatching_cases": len(mism)}, no_input=True)
     if not proved and not res.violations:
         pf = getattr(res, "proof_failure", {})
